@@ -131,6 +131,45 @@ theorem search_eq_filter_all (K : Kinds) (p : Pat) (t : Tree) (hk : ∀ n ∈ wa
   | none => simp [he] at hm
   | some e => simpa using sound_node K p [] n e la (hk n hn) hla he
 
+/-- **`search` is `filter match ∘ walk events`, for every `on` mode**: the events `search(pat, on=...)` yields are
+the walk events (`enter`: before the children, `leave`: after them, `both`: both) of exactly the nodes `match` accepts,
+in walk order, and each event carries the verdict and the tags of ITS OWN node (`matchedEvents`) — whatever was
+matched between the enter and the leave event of a node. Holds for every pattern on trees whose node kinds the tables
+cover (`leaf_table_ok`). -/
+theorem search_events (K : Kinds) (p : Pat) (on : On) (t : Tree) (hk : ∀ ev ∈ walkBoth K t, TargetOK K ev.1.kind) :
+    searchEvents K p on t = matchedEvents K p on t := by
+  unfold searchEvents walkEvents matchedEvents
+  split
+  · rfl
+  · next la hla =>
+    split
+    · rfl
+    · apply filterMap_filter_of_imp
+      intro ev hev hsome
+      have hmem : ev ∈ walkBoth K t := (List.mem_filter.1 hev).1
+      cases he : matchNode K p [] ev.1 with
+      | none => simp [he] at hsome
+      | some e => simpa using sound_node K p [] ev.1 e la (hk ev hmem) hla he
+
+/-- the `enter` events of the two-sided walk are the pre-order walk `search_eq_filter` speaks about -/
+theorem enter_events_are_walk (K : Kinds) (t : Tree) :
+    ((walkBoth K t).filter (fun ev => On.enter.keeps ev.2)).map (·.1) = walk K t :=
+  walk_of_both K t
+
+-- a node that matches although its last descendant does not, and the other way round: `[a, [1]]`-like shapes;
+-- every event carries its own node's verdict (2 events for the outer list, none for the inner one)
+private def listK : Nat := Pfst.Gen.Leaf.kList
+private def evT : Tree :=
+  .node 0 listK [.node 1 Pfst.Gen.Leaf.listKind
+    [.node 2 Pfst.Gen.Leaf.kName [.node 3 1000 [], .node 4 Pfst.Gen.Leaf.kLoad []],
+     .node 5 listK [.node 6 Pfst.Gen.Leaf.listKind [.node 7 Pfst.Gen.Leaf.kConstant [.node 8 1001 [], .node 9 Pfst.Gen.Leaf.noneKind []]],
+                    .node 10 Pfst.Gen.Leaf.kLoad []]],
+    .node 11 Pfst.Gen.Leaf.kLoad []]
+private def evP : Pat :=
+  .node listK [.node Pfst.Gen.Leaf.listKind [.m (.type Pfst.Gen.Leaf.kName) (some 0) [], .type listK], .wild]
+example : (searchEvents Pfst.Gen.Leaf.kinds evP .both evT).map (fun ev => (ev.1.id, ev.2.1)) = [(0, false), (0, true)] ∧
+    (searchEvents Pfst.Gen.Leaf.kinds evP .leave evT).map (fun ev => (ev.1.id, ev.2.1)) = [(0, true)] := by decide +kernel
+
 /-! ## quantifiers -/
 
 /-
